@@ -304,19 +304,10 @@ def forestStep (h : Heap) (regs : Array (Option Id)) (op : Json) : FR (Heap × A
     if segs.isEmpty then funmodelled
     ofSetRes h regs (setPathH h (regId r) segs (.prim k v))
   | "remove" =>
-    let segs := fSegsOf name idx pol.pathSep
-    if meetsDyn h (regId r) segs.dropLast then funmodelled
-    match segs.reverse with
-    | [] => funmodelled
-    | last :: revInit =>
-      match fwalk h (regId r) revInit.reverse with
-      | none => pure (h, regs)
-      | some cont =>
-        let cn ← fnodeAt h cont
-        if isNilPrim cn then funmodelled
-        if !(fIsSub cn) then pure (h, regs)
-        else if allDigits last then pure (delAt h cont last.toNat!, regs)
-        else pure (dictDel h cont last, regs)
+    let segs ← fSegs name idx pol.pathSep
+    match removePathH h (regId r) segs with
+    | some h' => pure (h', regs)
+    | none => funmodelled
   | "child" =>
     let segs := fSegsOf name idx pol.pathSep
     if meetsDyn h (regId r) segs then funmodelled
